@@ -3,26 +3,29 @@ import DaeVerif.C15.Proofs
 # C15 — property theorems
 
 Statements a reader should audit (namespace `DaeVerif.C15.Props`); the definitions they mention
-(`ASet`, `notify`, `setPolicy`, `runSet`, `getMin`, `getRand`, `Group`, `select`, `tried`, …) are
-the executable model in `Model.lean` — the same definitions the driver `c15drv` runs against the
-real code.  Hypothesis predicates (`HistMem`, `HistOk`/`NotifyOk`/`SetPolicyOk`, `GInv`) and the
-lemmas are in `Proofs.lean`.
+(`ASet`, `notify`, `setPolicy`, `runSet`, `getMin`, `getRand`, `Group`, `gNew`, `runG`, `select`,
+`tried`, `chain`, …) are the executable model in `Model.lean` — the same definitions the driver
+`c15drv` runs against the real code (the code *after* `fix:` addc261, where `time.Hour` is only the
+start value of the minimum scans).  Hypothesis predicates (`HistMem`/`GHistMem`: events name
+members; `HistOk`/`GHistOk`: additionally *mono*, see section B) and the lemmas are in `Proofs.lean`.
 
 Reading guide.  `s.entries` = `aliveEntries` (what the set believes alive, with the cached sorting
 latency `sl` = measurement + `add_latency` offset, `0` while unmeasured); `s.idx` =
 `dialerToIndex`; `s.minD/s.minL` = the cached best; `s.lat` = `dialerToLatency`.
 `beats tol sl L` = "`sl` is better than `L`, by at least `tol`".
+
+Naming: a theorem whose hypotheses restrict the property's quantifier ends in `_partial`; all the
+others hold for every group size, offset, latency, tolerance (negative included) and history.
 -/
 namespace DaeVerif.C15.Props
 open DaeVerif.C15
 
-/-! ## A. the internal index after every history -/
+/-! ## A. after every history: the internal index, the cached best -/
 
 /-- **Index consistency, all histories.** After any sequence of notifications (alive or not, with
 or without a latency, any values) and policy switches that only name members, none of the
 `Panicf`/out-of-range points was reached, `dialerToIndex` is exactly the inverse of the
-`aliveEntries` array, and no dialer occupies two slots.  No assumption on latencies, offsets or
-tolerance. -/
+`aliveEntries` array, and no dialer occupies two slots. -/
 theorem index_consistent (n : Nat) (tol : Int) (offs : Nat → Int) (p : Policy) (h : List SetEv)
     (hm : HistMem n h) :
     let s := runSet (ASet.init n tol offs p) h
@@ -60,50 +63,62 @@ example : HistMem 3 [.notify 0 true none, .notify 1 true (some 5), .notify 2 tru
   · simp [HistMem]
   · decide
 
-/-- **The cached best is always believed alive, all histories.** After any sequence of
-notifications and policy switches that only name members — any latencies, offsets, tolerance, in
-any order — the node `GetMinLatency(nil)` would hand out from its cache is a member of the alive
-list; under `random` nothing is cached. -/
-theorem best_is_alive_or_nil (n : Nat) (tol : Int) (offs : Nat → Int) (p : Policy) (h : List SetEv)
-    (hm : HistMem n h) :
+/-- **The cached best is believed alive, and is nil exactly when nobody is — all histories.**
+After any sequence of notifications and policy switches that only name members — any latencies,
+offsets (an hour and more included), tolerance, in any order — the node `GetMinLatency(nil)` hands
+out from its cache is a member of the alive list; under a min policy the cache is `nil` exactly
+when the alive list is empty; under `random` nothing is cached. -/
+theorem best_is_alive_and_nil_iff_nobody_alive (n : Nat) (tol : Int) (offs : Nat → Int) (p : Policy)
+    (h : List SetEv) (hm : HistMem n h) :
     let s := runSet (ASet.init n tol offs p) h
-    (∀ d, s.minD = some d → ∃ e ∈ s.entries, e.d = d) ∧ (s.policy.isMin = false → s.minD = none) := by
+    (∀ d, s.minD = some d → ∃ e ∈ s.entries, e.d = d) ∧
+    (s.policy.isMin = true → (s.minD = none ↔ s.entries = [])) ∧
+    (s.policy.isMin = false → s.minD = none) := by
   intro s
-  have := minv_run h (ASet.init n tol offs p) (minv_init n tol offs p) hm
-  exact ⟨this.bestIn, this.nonMin⟩
+  have hmi := minv_run h (ASet.init n tol offs p) (minv_init n tol offs p) hm
+  have hne := ne_run h (ASet.init n tol offs p) (minv_init n tol offs p) (by intro _ _; rfl) hm
+  refine ⟨hmi.bestIn, ?_, hmi.nonMin⟩
+  intro hpm
+  constructor
+  · exact hne hpm
+  · intro he
+    cases hD : s.minD with
+    | none => rfl
+    | some d =>
+      obtain ⟨e, hmem, _⟩ := hmi.bestIn d hD
+      have hmem' : e ∈ s.entries := hmem
+      rw [he] at hmem'; cases hmem'
 
-/-! ## B. the cached best, the tolerance rule (min policies) -/
+-- the former `time.Hour` sentinel: a node with `add_latency = 1h` (+1 ms measured) is selectable
+example : getMin (runSet (ASet.init 1 0 (fun _ => hour) .minLast) [.notify 0 true (some 1000000)]) none
+    = (some 0, hour + 1000000) := by decide
 
-/-- **The invariant behind B/C**, for all histories that respect `HistOk` (members only; a
-dialer the set has a latency for keeps reporting one; sorting latency + tolerance below the
-`time.Hour` sentinel) and any tolerance `≥ 0`:
-* the cached best is a member of the alive list, and is `nil` exactly when the list is empty (min
-  policies) / always `nil` (random);
+/-! ## B. the tolerance rule (min policies)
+
+The statements of this section are about *measured* nodes, and they need one fact about the
+environment, **mono**: a dialer for which the set has recorded a latency (under the current policy)
+keeps coming with one in later notifications (`NotifyOk.mono`).  The dialer side provides it
+(`measurement_once_always_for_positive_samples` below: `LatenciesN` never shrinks, the moving
+average stays positive); it is broken only by restoring an emptier health snapshot (reload, C16)
+or a 0 ns sample under `min_moving_avg`.  Without it the tolerance bound is false of the code —
+see the example after `alive_set_invariant_partial` — hence the `_partial` suffix.  No bound on
+latencies, offsets or tolerance is assumed any more. -/
+
+/-- **The tolerance invariant**, for all histories that respect `HistOk` (members only + mono):
 * every alive entry's cached sorting latency is measurement + offset (0 while unmeasured);
 * **tolerance bound**: no alive entry *with a measurement* beats the cached best latency by the
   tolerance or more;
 * the cached best latency is the best's own sorting latency, except for the optimistic "first
   alive, never measured" choice, whose cached latency is still `time.Hour`. -/
 theorem alive_set_invariant_partial (n : Nat) (tol : Int) (offs : Nat → Int) (p : Policy) (h : List SetEv)
-    (ht : 0 ≤ tol) (hok : HistOk (ASet.init n tol offs p) h) :
+    (hok : HistOk (ASet.init n tol offs p) h) :
     let s := runSet (ASet.init n tol offs p) h
     (∀ d, s.minD = some d → ∃ e ∈ s.entries, e.d = d ∧ (e.sl = s.minL ∨ (s.minL = hour ∧ s.lat d = none))) ∧
-    (s.policy.isMin = true → (s.minD = none ↔ s.entries = [])) ∧
-    (s.policy.isMin = false → s.minD = none) ∧
     (s.policy.isMin = true → ∀ e ∈ s.entries, e.sl = expSl s e.d) ∧
     (s.policy.isMin = true → ∀ e ∈ s.entries, s.lat e.d ≠ none → ¬ beats s.tol e.sl s.minL) := by
   intro s
-  have hs : SInv s := sinv_run h _ (sinv_init n tol offs p ht) hok
-  refine ⟨hs.best, ?_, hs.nonMin, hs.latCons, hs.tolBound⟩
-  intro hm
-  constructor
-  · exact hs.nilEmpty hm
-  · intro he
-    cases hD : s.minD with
-    | none => rfl
-    | some d =>
-      obtain ⟨e, hmem, _⟩ := hs.best d hD
-      rw [he] at hmem; cases hmem
+  have hs : SInv s := sinv_run h _ (sinv_init n tol offs p) hok
+  exact ⟨hs.best, hs.latCons, hs.tolBound⟩
 
 -- non-vacuity: tolerance 30; node 1 measures 80 against the best's 100 — no switch (20 < 30) —
 -- then 70 — switch.
@@ -112,33 +127,16 @@ example : HistOk (ASet.init 2 30 (fun _ => 0) .minLast)
     (runSet (ASet.init 2 30 (fun _ => 0) .minLast) [.notify 0 true (some 100), .notify 1 true (some 80)]).minD = some 0 ∧
     (runSet (ASet.init 2 30 (fun _ => 0) .minLast)
       [.notify 0 true (some 100), .notify 1 true (some 80), .notify 1 true (some 70)]).minD = some 1 := by
-  refine ⟨⟨⟨by decide, by intros; simp, by intro r h; cases h; decide⟩,
-           ⟨by decide, by intros; simp, by intro r h; cases h; decide⟩,
-           ⟨by decide, by intros; simp, by intro r h; cases h; decide⟩, trivial⟩, by decide, by decide⟩
+  refine ⟨⟨⟨by decide, by intros; simp⟩, ⟨by decide, by intros; simp⟩, ⟨by decide, by intros; simp⟩, trivial⟩,
+    by decide, by decide⟩
 
-/-- The full-strength form of the `nil ↔ nobody alive` clause: as in
-`alive_set_invariant_partial` but for ANY offsets/latencies/tolerance (no `time.Hour` bound).
-It is FALSE of the code as it is — see `nil_iff_no_alive_full_fails` — which is why the proved
-theorem carries the bound (finding `c15-hour-sentinel` in design_notes/C15.md). -/
-def nil_iff_no_alive_full : Prop :=
-  ∀ (n : Nat) (tol : Int) (offs : Nat → Int) (p : Policy) (h : List SetEv), 0 ≤ tol →
-    HistOkNoBound (ASet.init n tol offs p) h →
-    let s := runSet (ASet.init n tol offs p) h
-    s.policy.isMin = true → (s.minD = none ↔ s.entries = [])
-
-/-- A node whose `add_latency` is one hour: its first successful probe makes it alive, yet the
-cached best stays `nil` and `GetMinLatency` answers `nil` ("no alive dialer"). -/
-theorem nil_iff_no_alive_full_fails : ¬ nil_iff_no_alive_full := by
-  intro h
-  have := h 1 0 (fun _ => hour) .minLast [.notify 0 true (some 1000000)] (by decide)
-    ⟨⟨by decide, by intro _ h; exact absurd rfl h⟩, trivial⟩ (by decide)
-  have h1 : (runSet (ASet.init 1 0 (fun _ => hour) .minLast) [.notify 0 true (some 1000000)]).minD = none := by decide
-  have h2 := this.mp h1
-  revert h2
-  decide
-
-example : (getMin (runSet (ASet.init 1 0 (fun _ => hour) .minLast) [.notify 0 true (some 1000000)]) none).1 = none := by
-  decide
+-- why mono is needed: node 1 is measured (10) while dead, then revives with a notification that
+-- carries no latency; it joins with sorting latency 0, recorded latency 10, and "beats" the best's
+-- 100 by more than the tolerance 30 without any switch.
+example :
+    let s := runSet (ASet.init 2 30 (fun _ => 0) .minLast)
+      [.notify 0 true (some 100), .notify 1 false (some 10), .notify 1 true none]
+    s.minD = some 0 ∧ s.minL = 100 ∧ s.entries = [⟨0, 100⟩, ⟨1, 0⟩] ∧ s.lat 1 = some 10 := by decide
 
 /-- **The tolerance rule as a relation between consecutive states** (min policies). From any
 state reached by an admissible history, one more notification changes the choice from `b` to
@@ -148,9 +146,9 @@ another node `b'` only if
 * `b'` is not worse than `b` and either better by at least the tolerance, or `b`'s latency is
   itself below the tolerance (sorting latencies = measurement + offset, after the notification);
 and the choice becomes `nil` only when nobody is alive any more.  (The remaining way to change the
-choice is a policy switch, which is a different event.) -/
-theorem switch_only_when (n : Nat) (tol : Int) (offs : Nat → Int) (p : Policy) (h : List SetEv)
-    (ht : 0 ≤ tol) (hok : HistOk (ASet.init n tol offs p) h) (d : Nat) (alive : Bool) (snap : Option Int) :
+choice is a policy switch, which is a different event.)  `_partial`: mono. -/
+theorem switch_only_when_partial (n : Nat) (tol : Int) (offs : Nat → Int) (p : Policy) (h : List SetEv)
+    (hok : HistOk (ASet.init n tol offs p) h) (d : Nat) (alive : Bool) (snap : Option Int) :
     let s := runSet (ASet.init n tol offs p) h
     s.policy.isMin = true → NotifyOk s d snap →
     let s' := (notify s d alive snap).1
@@ -160,20 +158,8 @@ theorem switch_only_when (n : Nat) (tol : Int) (offs : Nat → Int) (p : Policy)
         (eb'.sl + tol ≤ eb.sl ∨ eb.sl < tol))) ∧
     (s'.minD = none → s'.entries = []) := by
   intro s hm ok s'
-  have hs : SInv s := sinv_run h _ (sinv_init n tol offs p ht) hok
-  have htol : s.tol = tol := by
-    have : ∀ (h : List SetEv) (s0 : ASet), (runSet s0 h).tol = s0.tol := by
-      intro h
-      induction h with
-      | nil => intro s0; rfl
-      | cons e es ih =>
-        intro s0
-        show (runSet (stepSet s0 e) es).tol = s0.tol
-        rw [ih]
-        cases e with
-        | notify d a sn => exact (notify_frame s0 d a sn).2.1
-        | setPolicy p sa => exact (setPolicy_frame s0 p sa).2.1
-    exact this h _
+  have hs : SInv s := sinv_run h _ (sinv_init n tol offs p) hok
+  have htol : s.tol = tol := runSet_tol h _
   constructor
   · intro b b' hb hb' hne
     have := switch_notify hs hm ok hb hb' hne
@@ -191,30 +177,34 @@ example : (notify (runSet (ASet.init 2 30 (fun _ => 0) .minLast) [.notify 0 true
 example : (notify (runSet (ASet.init 2 0 (fun _ => 0) .minLast) [.notify 0 true (some 50)]) 1 true (some 50)).1.minD = some 1 := by
   decide
 
-/-- **What `GetMinLatency(nil)` hands out** (state form; `SInv s` holds after every history by
-`alive_set_invariant`'s proof): an alive node; the latency returned with it is that node's sorting
-latency (or `time.Hour` for the never-measured first choice); and no alive node with a measurement
-beats that latency by the tolerance or more. -/
-theorem min_policy_returns_unbeaten_alive {s : ASet} (hs : SInv s) (hm : s.policy.isMin = true)
+/-- **What `GetMinLatency(nil)` hands out** (state form; `SInv s` is what `alive_set_invariant_partial`
+establishes after every admissible history): an alive node; the latency returned with it is that
+node's sorting latency (or `time.Hour` for the never-measured first choice); and no alive node
+with a measurement beats that latency by the tolerance or more.  `_partial`: mono (inside `SInv`). -/
+theorem min_policy_returns_unbeaten_alive_partial {s : ASet} (hs : SInv s) (hm : s.policy.isMin = true)
     {d : Nat} {L : Int} (h : getMin s none = (some d, L)) :
     (∃ e ∈ s.entries, e.d = d ∧ (e.sl = L ∨ (L = hour ∧ s.lat d = none))) ∧
     (∀ e ∈ s.entries, s.lat e.d ≠ none → ¬ beats s.tol e.sl L) :=
   ⟨getMin_best_latency hs h hm, getMin_tolerance hs hm h⟩
 
-/-- `GetMinLatency(excluded)`: never the excluded node, always an alive one; `nil` exactly when
-every alive node is the excluded one. -/
-theorem getMin_respects_exclusion {s : ASet} (hs : SInv s) (excl : Option Nat) :
+/-! ## C. exclusion, random -/
+
+/-- **`GetMinLatency(excluded)`, all histories**: never the excluded node, always an alive one;
+`nil` exactly when every alive node is the excluded one. -/
+theorem getMin_respects_exclusion (n : Nat) (tol : Int) (offs : Nat → Int) (p : Policy) (h : List SetEv)
+    (hm : HistMem n h) (excl : Option Nat) :
+    let s := runSet (ASet.init n tol offs p) h
     (∀ d L, getMin s excl = (some d, L) → (∃ e ∈ s.entries, e.d = d) ∧ excl ≠ some d) ∧
-    ((getMin s excl).1 = none ↔ ∀ e ∈ s.entries, excl = some e.d) :=
-  ⟨fun _ _ h => getMin_some hs h, getMin_none_iff hs excl⟩
+    ((getMin s excl).1 = none ↔ ∀ e ∈ s.entries, excl = some e.d) := by
+  intro s
+  have hmi := minv_run h (ASet.init n tol offs p) (minv_init n tol offs p) hm
+  exact ⟨fun _ _ h => getMin_some' hmi.bestIn h, getMin_none_iff' hmi.bestIn excl⟩
 
 /-- with the cached best excluded, the answer is a true minimum over the other alive nodes -/
 theorem getMin_excluding_best_is_minimum {s : ASet} {b d : Nat} {L : Int} (hD : s.minD = some b)
     (h : getMin s (some b) = (some d, L)) :
     (⟨d, L⟩ : Entry) ∈ s.entries ∧ d ≠ b ∧ ∀ e ∈ s.entries, e.d ≠ b → L ≤ e.sl :=
   getMin_excluded_is_min hD h
-
-/-! ## C. random -/
 
 /-- **random returns only alive, non-excluded nodes — for every value of the random source** —
 and returns `nil` only when there is none. -/
@@ -239,7 +229,11 @@ theorem random_returns_alive (rnd : Nat → Nat) (s : ASet) (excl : Option Nat) 
 example : getRand (fun _ => 7) ⟨3, 0, fun _ => 0, .random, fun _ => .init, fun _ => none,
     [⟨0, 0⟩, ⟨1, 0⟩, ⟨2, 0⟩], none, hour, false⟩ (some 1) = some 0 := by decide
 
-/-! ## D. the group: `SelectWithExclusionResult` -/
+/-! ## D. the group: `SelectWithExclusionResult`, all histories
+
+`g` below is any group reached from `NewDialerGroup` (any members' alive flags and snapshots, any
+offsets/tolerance/policy) by any sequence of notifications (any domain, alive or not, any
+snapshot) and policy switches that only name members (`GHistMem`). -/
 
 /-- **fixed(i) always returns the i-th node** (whatever is alive, whatever is excluded). -/
 theorem fixed_returns_ith (rnd : Nat → Nat → Nat → Nat) (g : Group) (t : NetType) (strict : Bool)
@@ -252,44 +246,98 @@ theorem fixed_returns_ith (rnd : Nat → Nat → Nat → Nat) (g : Group) (t : N
 chain for the other family when `strict = false`), **never the excluded node** — the only other
 answer is the single-node last resort (strict call, one-node group, nothing selectable for the
 requested chain), which hands out node 0 with latency `dialer.Timeout`.  Random and min policies,
-every value of the random source. -/
-theorem select_returns_alive_of_tried_type {rnd : Nat → Nat → Nat → Nat} {g : Group} {t : NetType}
-    {strict : Bool} {excl : Option Nat} (hg : GInv g) (hp : g.policy ≠ .fixed) {x : SelOk}
-    (h : select rnd g t strict excl = .ok x) :
+every value of the random source, every history. -/
+theorem select_returns_alive_of_tried_type (n : Nat) (tol : Int) (offs : Nat → Int) (p : Policy)
+    (fi : Int) (alive0 : Nat → Nat → Bool) (snap0 : Nat → Nat → Option Int) (h : List GEv)
+    (hm : GHistMem n h) (rnd : Nat → Nat → Nat → Nat) (t : NetType) (strict : Bool)
+    (excl : Option Nat) (x : SelOk) :
+    let g := runG (gNew n tol offs p fi alive0 snap0).1 h
+    g.policy ≠ .fixed → select rnd g t strict excl = .ok x →
     (∃ ty ∈ tried g t strict, (∃ e ∈ (g.sets ty.index).entries, e.d = x.d) ∧ excl ≠ some x.d) ∨
     (strict = true ∧ g.n = 1 ∧ x.d = 0 ∧ x.lat = dialTimeout ∧
       ∀ ty ∈ chain t g.policy, ∀ e ∈ (g.sets ty.index).entries, excl = some e.d) := by
-  have hhs : g.hasSets = true := by rw [hg.hasSets]; cases hq : g.policy <;> simp_all [needsAlive]
-  rcases select_ok hp (fun ty => (hg.sets hhs ty).1) h with ⟨ty, hty, h1, h2, _⟩ | h'
+  intro g hp hsel
+  have hg := gminv_after n tol offs p fi alive0 snap0 h hm
+  rcases select_ok hp (fun ty => (hg.sets ty).1.bestIn) hsel with ⟨ty, hty, h1, h2, _⟩ | h'
   · exact Or.inl ⟨ty, hty, h1, h2⟩
   · exact Or.inr h'
 
 /-- **The excluded node is returned only under `fixed` or as the single-node last resort.** -/
-theorem excluded_never_returned_unless_fixed_or_last_resort {rnd : Nat → Nat → Nat → Nat} {g : Group}
-    {t : NetType} {strict : Bool} {d : Nat} (hg : GInv g) {x : SelOk}
-    (h : select rnd g t strict (some d) = .ok x) (hx : x.d = d) :
+theorem excluded_never_returned_unless_fixed_or_last_resort (n : Nat) (tol : Int) (offs : Nat → Int)
+    (p : Policy) (fi : Int) (alive0 : Nat → Nat → Bool) (snap0 : Nat → Nat → Option Int) (h : List GEv)
+    (hm : GHistMem n h) (rnd : Nat → Nat → Nat → Nat) (t : NetType) (strict : Bool) (d : Nat) (x : SelOk) :
+    let g := runG (gNew n tol offs p fi alive0 snap0).1 h
+    select rnd g t strict (some d) = .ok x → x.d = d →
     g.policy = .fixed ∨ (strict = true ∧ g.n = 1 ∧ x.lat = dialTimeout) := by
+  intro g hsel hx
   by_cases hp : g.policy = .fixed
   · exact Or.inl hp
-  · rcases select_returns_alive_of_tried_type hg hp h with ⟨_, _, _, hne⟩ | ⟨a, b, _, c, _⟩
+  · rcases select_returns_alive_of_tried_type n tol offs p fi alive0 snap0 h hm rnd t strict (some d) x hp hsel
+      with ⟨_, _, _, hne⟩ | ⟨a, b, _, c, _⟩
     · exact absurd (by rw [hx]) hne
     · exact Or.inr ⟨a, b, c⟩
 
 /-- **"no alive dialer" exactly when no consulted domain has a selectable node** (an alive node
 other than the excluded one), the group is non-empty, and the last resort does not apply.  In
 particular: whenever some consulted domain has such a node, a node is returned. -/
-theorem no_alive_error_iff_all_tried_empty {rnd : Nat → Nat → Nat → Nat} {g : Group} {t : NetType}
-    {strict : Bool} {excl : Option Nat} (hg : GInv g) (hp : g.policy ≠ .fixed) :
-    select rnd g t strict excl = .error .noAlive ↔
+theorem no_alive_error_iff_all_tried_empty (n : Nat) (tol : Int) (offs : Nat → Int) (p : Policy)
+    (fi : Int) (alive0 : Nat → Nat → Bool) (snap0 : Nat → Nat → Option Int) (h : List GEv)
+    (hm : GHistMem n h) (rnd : Nat → Nat → Nat → Nat) (t : NetType) (strict : Bool) (excl : Option Nat) :
+    let g := runG (gNew n tol offs p fi alive0 snap0).1 h
+    g.policy ≠ .fixed →
+    (select rnd g t strict excl = .error .noAlive ↔
       g.n ≠ 0 ∧ ¬ (strict = true ∧ g.n = 1) ∧
-      ∀ ty ∈ tried g t strict, ∀ e ∈ (g.sets ty.index).entries, excl = some e.d := by
-  have hhs : g.hasSets = true := by rw [hg.hasSets]; cases hq : g.policy <;> simp_all [needsAlive]
-  exact select_noAlive_iff hp (fun ty => (hg.sets hhs ty).1)
+      ∀ ty ∈ tried g t strict, ∀ e ∈ (g.sets ty.index).entries, excl = some e.d) := by
+  intro g hp
+  have hg := gminv_after n tol offs p fi alive0 snap0 h hm
+  exact select_noAlive_iff hp (fun ty => (hg.sets ty).1.bestIn)
+
+/-- **The fallbacks are consulted in the documented order**: the admitting domain is the first
+one of the chain (requested type; for data UDP then DNS-UDP, then TCP, same family) that has a
+selectable node — every earlier domain of the chain had none. -/
+theorem select_prefers_earlier_domain (n : Nat) (tol : Int) (offs : Nat → Int) (p : Policy)
+    (fi : Int) (alive0 : Nat → Nat → Bool) (snap0 : Nat → Nat → Option Int) (h : List GEv)
+    (hm : GHistMem n h) (rnd : Nat → Nat → Nat) (t : NetType) (q : Policy) (fi' : Int)
+    (excl : Option Nat) (x : SelOk) :
+    let g := runG (gNew n tol offs p fi alive0 snap0).1 h
+    q ≠ .fixed → select1 rnd g t q fi' excl = .ok x →
+    ∃ pre ty post, chain t q = pre ++ ty :: post ∧
+      ((∃ e ∈ (g.sets ty.index).entries, e.d = x.d) ∧ excl ≠ some x.d) ∧
+      ∀ ty' ∈ pre, ∀ e ∈ (g.sets ty'.index).entries, excl = some e.d := by
+  intro g hq hsel
+  have hg := gminv_after n tol offs p fi alive0 snap0 h hm
+  exact select1_first_selectable hq (fun ty => (hg.sets ty).1.bestIn) hsel
+
+/-- data UDP consults data-UDP, then DNS-UDP, then TCP, of the same family (type indices
+4/5, 0/1, 2/3) -/
+theorem data_udp_chain_order (ip6 isDns : Bool) (p : Policy) (hp : p ≠ .fixed) :
+    (chain ⟨true, ip6, isDns, .data⟩ p).map NetType.index =
+      [4 + (if ip6 then 1 else 0), 0 + (if ip6 then 1 else 0), 2 + (if ip6 then 1 else 0)] :=
+  chain_data_udp ip6 isDns p hp
+
+-- non-vacuity: the data-UDP fallback chain and the admitting-domain preference are really reachable
+-- (one-node group, data-UDP4 and DNS-UDP4 dead: admitted by TCP4, unmeasured, latency `Hour`)
+example : GHistMem 1 [.notify 4 0 false none, .notify 0 0 false none] ∧ (select (fun _ _ _ => 0)
+    (runG (gNew 1 0 (fun _ => 0) .minLast 0 (fun _ _ => true) (fun _ _ => none)).1
+      [.notify 4 0 false none, .notify 0 0 false none])
+    ⟨true, false, false, .data⟩ true none).toOption = some ⟨0, hour, 2⟩ := by
+  constructor
+  · simp [GHistMem]
+  · decide
+
+/-- **The group-level tolerance invariant holds after every admissible history** (`GHistOk`:
+members only + mono, see section B): the six sets exist exactly under random/min, run the group's
+policy and satisfy the full set invariant `SInv`.  `_partial`: mono. -/
+theorem group_invariant_all_histories_partial (n : Nat) (tol : Int) (offs : Nat → Int) (p : Policy)
+    (fi : Int) (alive0 : Nat → Nat → Bool) (snap0 : Nat → Nat → Option Int) (h : List GEv)
+    (hok : GHistOk (gNew n tol offs p fi alive0 snap0).1 h) :
+    GInv (runG (gNew n tol offs p fi alive0 snap0).1 h) :=
+  ginv_run h _ (ginv_gNew n tol offs p fi alive0 snap0) hok
 
 /-- **min policies at group level**: the node returned without exclusion is the cached best of
 the admitting domain, and no alive measured node of that domain beats the returned latency by the
-tolerance or more. -/
-theorem select_min_is_unbeaten {rnd : Nat → Nat → Nat → Nat} {g : Group} {t : NetType}
+tolerance or more.  `_partial`: `GInv g` (mono, by `group_invariant_all_histories_partial`). -/
+theorem select_min_is_unbeaten_partial {rnd : Nat → Nat → Nat → Nat} {g : Group} {t : NetType}
     {strict : Bool} (hg : GInv g) (hm : g.policy.isMin = true) {x : SelOk}
     (h : select rnd g t strict none = .ok x) (hnl : x.lat ≠ dialTimeout) :
     ∃ ty ∈ tried g t strict, getMin (g.sets ty.index) none = (some x.d, x.lat) ∧
@@ -297,43 +345,11 @@ theorem select_min_is_unbeaten {rnd : Nat → Nat → Nat → Nat} {g : Group} {
         ¬ beats (g.sets ty.index).tol e.sl x.lat := by
   have hp : g.policy ≠ .fixed := by intro h; rw [h] at hm; cases hm
   have hhs : g.hasSets = true := by rw [hg.hasSets]; cases hq : g.policy <;> simp_all [needsAlive]
-  rcases select_ok hp (fun ty => (hg.sets hhs ty).1) h with ⟨ty, hty, _, _, h3⟩ | ⟨_, _, _, hl, _⟩
+  rcases select_ok hp (fun ty => (hg.sets hhs ty).1.bestIn) h with ⟨ty, hty, _, _, h3⟩ | ⟨_, _, _, hl, _⟩
   · have hgm := h3 hm
     have hpol : (g.sets ty.index).policy.isMin = true := by rw [(hg.sets hhs ty.index).2.1]; exact hm
     exact ⟨ty, hty, hgm, getMin_tolerance (hg.sets hhs ty.index).1 hpol hgm⟩
   · exact absurd hl hnl
-
-/-- **All histories, no assumption on latencies: selection only hands out nodes believed alive,
-never the excluded one.**  Start from `NewDialerGroup` with any members' state, apply any sequence
-of notifications (any domain, alive or not, any snapshot) and policy switches that only name
-members; then whatever `SelectWithExclusionResult` returns under random/min is alive in the set
-of one of the consulted domains and is not the excluded node — or it is the single-node last
-resort (`strict`, one-node group; node 0 with latency `dialer.Timeout`). -/
-theorem selected_node_is_alive_all_histories (n : Nat) (tol : Int) (offs : Nat → Int) (p : Policy)
-    (fi : Int) (alive0 : Nat → Nat → Bool) (snap0 : Nat → Nat → Option Int) (h : List GEv)
-    (hm : GHistMem n h) (rnd : Nat → Nat → Nat → Nat) (t : NetType) (strict : Bool)
-    (excl : Option Nat) (x : SelOk) :
-    let g := runG (gNew n tol offs p fi alive0 snap0).1 h
-    g.policy ≠ .fixed → select rnd g t strict excl = .ok x →
-    (∃ ty ∈ tried g t strict, (∃ e ∈ (g.sets ty.index).entries, e.d = x.d) ∧ excl ≠ some x.d) ∨
-    (strict = true ∧ g.n = 1 ∧ x.d = 0 ∧ x.lat = dialTimeout) := by
-  intro g hp hsel
-  obtain ⟨h0, n0⟩ := gminv_gNew n tol offs p fi alive0 snap0
-  have hg : GMInv g := gminv_run h _ h0 (by rw [n0]; exact hm)
-  exact select_ok_alive hp (fun ty => (hg.sets ty).1) hsel
-
-/-- **The group invariant holds after every admissible history** (`GHistOk`: members only, a
-dialer a set has a latency for keeps reporting one, sorting latency + tolerance below
-`time.Hour`): the six sets exist exactly under random/min, run the group's policy and satisfy
-the set invariant — the hypothesis `GInv` of the selection theorems above.  `_partial`: the bound
-is needed (see `nil_iff_no_alive_full_fails`). -/
-theorem group_invariant_all_histories_partial (n : Nat) (tol : Int) (offs : Nat → Int) (p : Policy)
-    (fi : Int) (alive0 : Nat → Nat → Bool) (snap0 : Nat → Nat → Option Int) (h : List GEv)
-    (ht : 0 ≤ tol) (hb : ∀ t d r, snap0 t d = some r → r + offs d + tol < hour)
-    (hok : GHistOk (gNew n tol offs p fi alive0 snap0).1 h) :
-    GInv (runG (gNew n tol offs p fi alive0 snap0).1 h) :=
-  ginv_run h _ (ginv_gNew n tol offs p fi alive0 snap0 ht hb)
-    (by rw [gNew_tol]; exact ht) hok
 
 -- non-vacuity: a two-node `min` group, tolerance 30; node 0 measured 100 on tcp4, then node 1
 -- measured 60: the invariant's hypotheses hold and the selection really switches to node 1.
@@ -342,14 +358,7 @@ example : GHistOk (gNew 2 30 (fun _ => 0) .minLast 0 (fun _ _ => true) (fun _ _ 
     (select (fun _ _ _ => 0) (runG (gNew 2 30 (fun _ => 0) .minLast 0 (fun _ _ => true) (fun _ _ => none)).1
       [.notify 2 0 true (some 100), .notify 2 1 true (some 60)]) ⟨false, false, false, .unset⟩ true none).toOption
       = some ⟨1, 60, 2⟩ := by
-  refine ⟨⟨fun _ => ⟨by decide, by intros; simp, by intro r h; cases h; decide⟩,
-           fun _ => ⟨by decide, by intros; simp, by intro r h; cases h; decide⟩, trivial⟩, by decide⟩
-
--- the data-UDP fallback chain and the other-family fallback are really reachable
-example : (select (fun _ _ _ => 0)
-    (runG (gNew 1 0 (fun _ => 0) .minLast 0 (fun _ _ => true) (fun _ _ => none)).1
-      [.notify 4 0 false none, .notify 0 0 false none])
-    ⟨true, false, false, .data⟩ true none).toOption = some ⟨0, hour, 2⟩ := by decide
+  refine ⟨⟨fun _ => ⟨by decide, by intros; simp⟩, fun _ => ⟨by decide, by intros; simp⟩, trivial⟩, by decide⟩
 
 /-- **`chooseProxyDialer`'s selection** (retry the other family, non-strict, on "no alive"): the
 answer is an answer of one of the two `SelectWithExclusionResult` calls, so everything above
@@ -361,30 +370,11 @@ theorem chooseSelect_is_a_select (rnd : Nat → Nat → Nat → Nat → Nat) (g 
       chooseSelect rnd g t strict excl = select (rnd 1) g t.flip false excl) :=
   chooseSelect_cases rnd g t strict excl
 
-/-- **The fallbacks are consulted in the documented order**: the admitting domain is the first
-one of the chain (requested type; for data UDP then DNS-UDP, then TCP, same family) that has a
-selectable node — every earlier domain of the chain had none. -/
-theorem select_prefers_earlier_domain {rnd : Nat → Nat → Nat} {g : Group} {t : NetType} {p : Policy}
-    {fi : Int} {excl : Option Nat} (hg : GInv g) (hpg : g.policy ≠ .fixed) (hp : p ≠ .fixed) {x : SelOk}
-    (h : select1 rnd g t p fi excl = .ok x) :
-    ∃ pre ty post, chain t p = pre ++ ty :: post ∧
-      ((∃ e ∈ (g.sets ty.index).entries, e.d = x.d) ∧ excl ≠ some x.d) ∧
-      ∀ ty' ∈ pre, ∀ e ∈ (g.sets ty'.index).entries, excl = some e.d := by
-  have hhs : g.hasSets = true := by rw [hg.hasSets]; cases hq : g.policy <;> simp_all [needsAlive]
-  exact select1_first_selectable hp (fun ty => (hg.sets hhs ty).1) h
-
-/-- data UDP consults data-UDP, then DNS-UDP, then TCP, of the same family (type indices
-4/5, 0/1, 2/3) -/
-theorem data_udp_chain_order (ip6 isDns : Bool) (p : Policy) (hp : p ≠ .fixed) :
-    (chain ⟨true, ip6, isDns, .data⟩ p).map NetType.index =
-      [4 + (if ip6 then 1 else 0), 0 + (if ip6 then 1 else 0), 2 + (if ip6 then 1 else 0)] :=
-  chain_data_udp ip6 isDns p hp
-
-/-- **Once measured, always measured** (the `mono` hypothesis of `HistOk` is what the dialer side
-provides): after a successful probe with latency ≥ 1 ns, a policy that had a latency for the
-dialer still has one — for last / average-of-10 / moving-average alike. -/
-theorem measurement_once_always (c : Coll) (p : Policy) (pen pen' l : Int) (hl : 1 ≤ l)
-    (h : (c.snapshot p pen).isSome = true) : ((c.append l).snapshot p pen').isSome = true :=
+/-- **Once measured, always measured** (what discharges *mono* on the dialer side): after a
+successful probe with a positive latency (≥ 1 ns), a policy that had a latency for the dialer
+still has one — for last / average-of-10 / moving-average alike. -/
+theorem measurement_once_always_for_positive_samples (c : Coll) (p : Policy) (pen pen' l : Int)
+    (hl : 1 ≤ l) (h : (c.snapshot p pen).isSome = true) : ((c.append l).snapshot p pen').isSome = true :=
   snapshot_stays c p pen pen' l hl h
 
 example : ((Coll.empty.append 7).snapshot .minMovAvg 0) = some 3 := by decide
